@@ -643,11 +643,24 @@ def restart_roundtrip(ctx, st, world, inflight, k):
     if nrec:
         ctx.check(norm(st2.locked) == norm(st.locked), "C06:re-issued-jobs-stay-on-record-for-the-next-restart-file",
                   f"{st2.locked} vs {st.locked}")
-    # one of the re-issued jobs completes (rejected) on the restarted state: its record must leave the locked list, and the
-    # restart file written then must again mirror exactly what is in flight
-    if nrec and issued2:
+    # the initiation loop goes on until every worker has a job (fresh picks: first admissible index, both coin outcomes);
+    # then one of the jobs -- the first re-issued one or the freshly picked one -- completes (rejected) on the restarted
+    # state: its record must leave the locked list, and the restart file written then must again mirror exactly what is in
+    # flight
+    # (the extended leg -- full initiation, either job finishing, second restart -- runs on the first XLEG paths of an instance
+    #  that get here; the others take the short leg: the first re-issued job finishes, no second restart)
+    ext = bool(nrec and issued2) and PROP in ("C03", "C05", "C06") and ctx.gate("extended-restart-leg", XLEG)
+    if nrec and issued2 and (ext or PROP != "C03"):
         try:
-            m2 = issued2.pop(0)
+            if ext:
+                rngmodel.GenModel.first_admissible = True
+                try:
+                    while st2.initiate():
+                        issued2.append(st2.prep_md_items(copy.deepcopy(md0)))
+                finally:
+                    rngmodel.GenModel.first_admissible = False
+                check_invariants(ctx, st2, issued2, "restarted-state-with-every-worker-busy")
+            m2 = issued2.pop(0 if (not ext or len(issued2) < 2 or ctx.choice(2, "finishes-after-restart") == 0) else len(issued2) - 1)
             m2["status"] = "REJ"
             m2["moves"], m2["trial_len"], m2["trial_op"], m2["generated"] = ["sh"], [3], [(0.0, 1.0)], [("sh", 0, 0, 0)]
             st2.config["current"]["cstep"] = st2.cstep + 1
@@ -661,6 +674,35 @@ def restart_roundtrip(ctx, st, world, inflight, k):
             toml2 = w2.tomls[-1]["current"]["locked"]
             ctx.check(norm(toml2) == ab, "C05:restart-file-written-after-a-restart-lists-exactly-the-jobs-in-flight",
                       f"{toml2} vs {ab}")
+            # ---- a second stop right here, and a second restart from the file just written: the jobs of the first run that are
+            # still in flight must be handed out again to the same ensembles with the same paths (C03: each job holds a path
+            # with non-zero weight in its ensemble, exactly the in-flight ensembles are marked busy)
+            if ext and issued2:
+                cfg3 = copy.deepcopy(w2.tomls[-1])
+                cfg3["current"]["restarted_from"] = cfg3["current"]["cstep"]
+                w3 = World()
+                live2 = {t.path_number: t for t in st2._trajs[:-1]}
+                st3 = new_state(cfg3, w3)
+                paths3 = []
+                for pn in cfg3["current"]["active"]:
+                    p3 = live2[pn].copy()
+                    p3.weights = None
+                    p3.path_number = pn
+                    paths3.append(p3)
+                st3.load_paths(paths3)
+                st3.config["simulation"]["steps"] = st3.cstep + 10
+                issued3 = []
+                md03 = md0_of(st3)
+                nrec3 = len(st3.locked0)          # (pick_lock consumes locked0 as it goes)
+                while len(issued3) < nrec3 and st3.initiate():
+                    issued3.append(st3.prep_md_items(copy.deepcopy(md03)))
+                P2 = PROP if PROP in ("C03", "C05", "C06") else "C06"
+                got3 = sorted(sorted((e + 1, m["picked"][e]["traj"].path_number) for e in m["ens_nums"]) for m in issued3)
+                want3 = sorted(sorted((e + 1, m["picked"][e]["traj"].path_number) for e in m["ens_nums"]) for m in issued2)
+                ctx.check(got3 == want3, f"{P2}:second-restart-re-issues-exactly-the-jobs-still-in-flight", f"{got3} vs {want3}")
+                check_invariants(ctx, st3, issued3, "after-second-restart")
+                ctx.cover("restart:second")
+                _install_world(w2)
         except core.Inconclusive:
             raise
         except (core._Abort, core._Stop, core._Skip):
@@ -668,7 +710,7 @@ def restart_roundtrip(ctx, st, world, inflight, k):
         except Exception as e:
             core.reraise_if_proxy_limitation(e)
             _install_world(saved_world)
-            ctx.fail(f"{PROP if PROP in ('C05', 'C06') else 'C06'}:step-after-restart-completes", _tb(e))
+            ctx.fail(f"{PROP if PROP in ('C03', 'C05', 'C06') else 'C06'}:step-after-restart-completes", _tb(e))
             return
     want = sorted(sorted((e + 1, m["picked"][e]["traj"].path_number) for e in m["ens_nums"]) for m in inflight)
     ctx.check(sorted(reissued) == want, "C06:restart-re-issues-exactly-the-in-flight-jobs", f"{reissued} vs {want}")
@@ -760,7 +802,10 @@ def instances(tier, prop):
                 continue
             sub.append(dict(s, prop=prop, restart=(prop == "C11"), numbering=("minushigh" if prop == "C11" else s["numbering"])))
         return sub
-    return _instances(tier, prop)
+    out = _instances(tier, prop)
+    if tier != "quick":
+        out = [dict(s, xleg=24) for s in out]
+    return out
 
 
 def _instances(tier, prop):
@@ -768,7 +813,7 @@ def _instances(tier, prop):
     quick = tier == "quick"
     kmax = 4 if quick else 5
     want_delete = prop == "C14"
-    restart = prop in ("C04", "C05", "C06")
+    restart = prop in ("C04", "C05", "C06", "C03")   # C03: what is handed out after one and two restarts (k <= 3 and a third of k = 4)
     for k in range(2, kmax + 1):
         movesets = [["sh"] * k]
         if k >= 3:
@@ -789,8 +834,8 @@ def _instances(tier, prop):
                     # on the quick tier two thirds of the k = 4 all-'sh' pre-states run without the (expensive) restart leg
                     out.append({"kind": "ind", "k": k, "moves": moves, "arr": list(arr), "jobs": [list(j) for j in jobs],
                                 "numbering": "later" if want_delete else "initial",
-                                "delete": "lag" if want_delete else "off", "restart": restart and not thin, "prop": prop,
-                                "_cost": k ** 3 * len(jobs) * (4 if wf else 1)})
+                                "delete": "lag" if want_delete else "off", "restart": restart and not thin and (prop != "C03" or k <= 3 or h % 9 == 0),
+                                "prop": prop, "_cost": k ** 3 * len(jobs) * (4 if wf else 1)})
     if prop in ("C06", "C04", "C05"):
         # with an interface cap: weights recomputed at a restart must use the cap as well
         for k in (3, 4):
@@ -819,13 +864,13 @@ def _instances(tier, prop):
                 if any(arr[i] < i + 1 for i in range(k - 1)):
                     continue  # initial paths must be valid in their own ensemble
                 out.append({"kind": "bmc", "k": k, "workers": w, "moves": moves, "arr": list(arr), "depth": D,
-                            "delete": "on" if (want_delete or (k + w) % 2) else "off", "restart": restart, "prop": prop,
+                            "delete": "on" if (want_delete or (k + w) % 2) else "off", "restart": restart and prop != "C03", "prop": prop,
                             "_cost": (3 * k) ** D * 50, "_splitbits": 4 if quick else 6})
     return out
 
 
 EXPECT = ["restart:with-cap", "ind:accepted", "ind:rejected", "ind:zero-swap-in-flight", "pick:zero-swap", "restart:roundtrip",
-          "restart:with-in-flight", "bmc:depth-reached", "sort:swapped", "delete:removed"]
+          "restart:with-in-flight", "restart:second", "bmc:depth-reached", "sort:swapped", "delete:removed"]
 
 
 def expect(tier, prop):
@@ -836,16 +881,24 @@ def expect(tier, prop):
     e = list(EXPECT)
     if prop not in ("C04", "C05", "C06"):
         e = [x for x in e if x != "restart:with-cap"]
-    if prop not in ("C04", "C05", "C06"):
+    if prop == "C04":
+        e = [x for x in e if x != "restart:second"]
+    if prop == "C03":
+        e = [x for x in e if not x.startswith("restart:") or x == "restart:second"]
+    elif prop not in ("C04", "C05", "C06"):
         e = [x for x in e if not x.startswith("restart:")]
     if prop != "C14":
         e = [x for x in e if x != "delete:removed"]
     return e
 
 
+XLEG = 6
+
+
 def run_instance(ctx, shape):
-    global PROP
+    global PROP, XLEG
     PROP = shape.get("prop", "C05")
+    XLEG = shape.get("xleg", 6)
     rngmodel.REG.ids.clear()
     if shape["kind"] == "ind":
         return _ind(ctx, shape)
@@ -939,7 +992,9 @@ def _ind(ctx, sh):
     # ---- the invariant was broken (an assertion of another HRX property failed): follow the history for two more steps so
     #      that the consequences for the property under check become observable (or not)
     extra = 0
-    while getattr(ctx, "other_hit", False) and extra < 2 and inflight:
+    # (budget: the first 4 such paths of an instance are followed; on code that breaks another property everywhere the
+    #  follow-ups would otherwise multiply every path by the square of the branching factor)
+    while getattr(ctx, "other_hit", False) and extra < 2 and inflight and (extra or ctx.gate("follow-broken-invariant", 4)):
         extra += 1
         ctx.cover("ind:followed-broken-invariant")
         m, outcome = finish_job(ctx, st, world, inflight, k, wf_m=(1,))
